@@ -106,6 +106,22 @@ theorem open_set_counterexample :
     roundTripParents [([3], [[2]])] 0 = some (.ok []) := by
   decide
 
+open Dulwich.CommitGraphFmt in
+/-- The READER is right about commits with three or more parents when the file has an EDGE chunk (what C git
+writes): first parent in slot 1, slot 2 = `GRAPH_EXTRA_EDGES_NEEDED | k`, remaining parents from word `k` of the
+EDGE chunk, the last one flagged — every parent comes back, in order.  So the octopus defect is the writer's
+alone (it has no EDGE chunk), which is what the proposed patch addresses. -/
+theorem commit_graph_reader_edges (oids : List Bytes) (pre init junk : List Nat) (p1 last : Nat)
+    (h1 : p1 < oids.length) (hn : oids.length < MISSING)
+    (hin : ∀ p ∈ init, p < oids.length ∧ p < LAST) (hl : last < oids.length) :
+    decodeParents oids (some (pre ++ (init ++ [last + LAST] ++ junk))) p1 (EXTRA + pre.length) =
+      .ok ((p1 :: (init ++ [last])).filterMap (oids[·]?)) :=
+  decodeParents_edges oids pre init junk p1 last h1 hn hin hl
+
+open Dulwich.CommitGraphFmt in
+example : decodeParents [[1], [2], [3], [4]] (some [9, 1, 2 + LAST]) 0 (EXTRA + 1) = .ok [[1], [2], [3]] := by
+  decide
+
 theorem commit_graph_roundtrip_statement_false : ¬ CommitGraphParentsRoundtripStatement := by
   intro h
   have := h [([3], [[2]])] 0 ([3], [[2]]) (by decide) rfl
@@ -199,6 +215,41 @@ theorem bitmap_checksum_gate (packChecksum stored : Bytes) :
   unfold bitmapGate
   simp
 
+/-! ## 6b. reachability providers: traversal vs bitmaps (F10) -/
+
+/-- diamond history: 0 ← 1 ← 2, 0 ← 3, 4 = merge(2, 3) -/
+def diamond : Nat → List Nat
+  | 1 => [0] | 2 => [1] | 3 => [0] | 4 => [2, 3] | _ => []
+
+/-- FULL statement (false for the code as it is): both providers give the same commit set. -/
+def ReachProvidersAgreeStatement : Prop :=
+  ∀ (parents : Nat → List Nat) (fuel : Nat) (pack heads exclude : List Nat),
+    sameSet (traversalReach parents fuel heads exclude) (bitmapReach parents fuel pack heads exclude) = true
+
+/-- with everything in one pack and nothing excluded the providers agree on the diamond … -/
+example : sameSet (traversalReach diamond 16 [4] []) (bitmapReach diamond 16 [0, 1, 2, 3, 4] [4] []) = true := by
+  decide
+
+/-- … `exclude` means "stop at these commits" for the traversal but "subtract their whole ancestry" for the
+bitmaps: reachable from 4 excluding 2 is {0, 3, 4} by traversal and {3, 4} by bitmaps
+(confirmed on the real code: class `reachability-exclude-semantics-differ`) -/
+theorem exclude_semantics_counterexample :
+    traversalReach diamond 16 [4] [2] = [4, 3, 0] ∧ bitmapReach diamond 16 [0, 1, 2, 3, 4] [4] [2] = [4, 3] := by
+  decide
+
+/-- a pack that is not closed under reachability (commit 4 packed alone): its bitmap omits every ancestor
+(confirmed on the real code: class `bitmap-pack-not-closed`) -/
+theorem bitmap_multipack_counterexample :
+    bitmapReach diamond 16 [4] [4] [] = [4] ∧
+    sameSet (traversalReach diamond 16 [4] []) [0, 1, 2, 3, 4] = true := by
+  decide
+
+theorem reach_providers_statement_false : ¬ ReachProvidersAgreeStatement := by
+  intro h
+  have := h diamond 16 [4] [4] []
+  revert this
+  decide
+
 /-! ## 7. EWAH codec -/
 
 open Dulwich.Ewah in
@@ -265,5 +316,51 @@ theorem ewah_decode_bounded (data : Bytes) (bc : Nat) (ws : List Nat) (h : decod
   have := List.mem_range.mp this
   have : 64 * ws.length ≤ 64 * ((bc + 63) / 64) := Nat.mul_le_mul_left 64 hlen
   omega
+
+open Dulwich.Ewah in
+/-- `EWAHBitmap(b.encode())` gives back `b`: for EVERY bitmap whose encoding succeeds (i.e. no `struct.error`:
+fewer than 2^32 bits) the decoder returns the declared size `max(bits)+1` and a bitmap with exactly the same
+bits set — through bits → 64-bit words → run-length words → bytes → words → bits. -/
+theorem ewah_roundtrip (bits : List Bool) (bytes : Bytes) (h : encode bits = .ok bytes) :
+    ∃ ws, decode bytes = .ok (bitCount bits, ws) ∧ ∀ p, bitAt ws p = bits.getD p false :=
+  ⟨wordsOfBits bits, decode_encode bits bytes h, wordsOfBits_bitAt bits⟩
+
+open Dulwich.Ewah in
+/-- non-vacuity: bits {64, 66, 130} (a zero word, then two literal words) encode to the 36 bytes dulwich writes -/
+example : encode (List.replicate 64 false ++ [true, false, true] ++ List.replicate 63 false ++ [true]) =
+    .ok [0, 0, 0, 131, 0, 0, 0, 3, 0, 0, 0, 4, 0, 0, 0, 2, 0, 0, 0, 0, 0, 0, 0, 5, 0, 0, 0, 0, 0, 0, 0, 4, 0, 0, 0, 0] := by
+  decide +kernel
+
+/-! ## 8. multi-pack-index: fan-out + bisect lookup, large-offset spill -/
+
+open Dulwich.Midx in
+/-- `object_offset` over the table `write_midx` produces (ids strictly increasing, fan-out = cumulative counts
+by first byte, `fb` monotone in the id as the first byte of a fixed-width big-endian id is): the lookup finds
+exactly the ids that were written, never errs, never returns another id's position. -/
+theorem midx_lookup_correct (oids : List Nat) (fb : Nat → Nat) (hs : oids.Pairwise (· < ·))
+    (hmono : ∀ a b, a ≤ b → fb a ≤ fb b) (h256 : ∀ a, fb a < 256) (sha : Nat) :
+    (∃ j, oids[j]? = some sha ∧ lookup (writeFanout (oids.map fb)) oids (fb sha) sha = .ok (some j)) ∨
+    (sha ∉ oids ∧ lookup (writeFanout (oids.map fb)) oids (fb sha) sha = .ok none) :=
+  lookup_writeFanout oids fb hs hmono h256 sha
+
+open Dulwich.Midx in
+example : lookup (writeFanout ([3, 300, 301, 70000].map (· / 256 % 256))) [3, 300, 301, 70000] 1 301 = .ok (some 2) := by
+  decide
+
+open Dulwich.Midx in
+/-- bisect alone: correct on any window of a strictly increasing table -/
+theorem midx_bisect_correct (oids : List Nat) (sha : Nat) (hs : oids.Pairwise (· < ·))
+    (fuel lo hi : Nat) (hhi : hi ≤ oids.length) (hf : hi - lo < fuel) :
+    (∃ j, lo ≤ j ∧ j < hi ∧ oids[j]? = some sha ∧ bisect oids sha fuel lo hi = .ok (some j)) ∨
+    ((∀ j, lo ≤ j → j < hi → oids[j]? ≠ some sha) ∧ bisect oids sha fuel lo hi = .ok none) :=
+  bisect_correct oids sha hs fuel lo hi hhi hf
+
+open Dulwich.Midx in
+/-- OOFF/LOFF: every pack offset (any size) is read back through the large-offset table as written, as long as
+the number of entries fits the 31-bit index field -/
+theorem midx_offset_roundtrip (os : List Nat) (i o : Nat) (hi : os[i]? = some o) (hn : os.length < 2 ^ 31) :
+    ∃ w, (encodeOffsets os 0).1[i]? = some w ∧ decodeOffset w (some (encodeOffsets os 0).2) = .ok o := by
+  have := decode_encodeOffsets os [] i o hi (by simpa using hn)
+  simpa using this
 
 end Dulwich.Props.C14
